@@ -12,12 +12,91 @@ import (
 func init() { Registry["C18"] = checkC18 }
 
 func checkC18(p *core.Prog, r *core.Report) {
-	r.Explanation = "Decides structural necessary conditions of disconnect semantics: (R1) Server.handle reaches serverProtocol.Close() on every path after a successful protocol detection (the failing path closes the stream); (R2) every Close of a connection protocol is a test-and-set under its mutex that takes ownership of the will queue (copied to a local, field cleared) before the mutex is released, and drains the local copy with every queued command handed to the engine entry regardless of earlier results; (R3) will registration never executes: the registration arms push to the will queue, rewrite the command type to LOCK/UNLOCK before the push (otherwise Close would only re-register it), and call no engine function; (R4) registration uses Push (tail) and the drain uses Pop (head) of the same queue; (R5) proxies are repointed to the default protocol inside the critical section that sets closed; (R6) replies are re-routed by the connection's own client id, never to the closing connection itself, and Close removes the client-id entry only if it still maps to this connection. NOT decided: exactly-once when a close races the drain on a follower whose leader is unreachable, leaks of queued requests, delivery after reconnect."
+	r.Explanation = "Decides structural necessary conditions of disconnect semantics: (R1) Server.handle reaches serverProtocol.Close() on every path after a successful protocol detection (the failing path closes the stream); (R2) every Close of a connection protocol is a test-and-set under its mutex that takes ownership of the will queue (copied to a local, field cleared) before the mutex is released, and drains the local copy with every queued command handed to the engine entry regardless of earlier results; (R3) will registration never executes: the registration arms push to the will queue, rewrite the command type to LOCK/UNLOCK before the push (otherwise Close would only re-register it), and call no engine function; (R4) registration uses Push (tail) and the drain uses Pop (head) of the same queue; (R5) proxies are repointed to the default protocol inside the critical section that sets closed, and AddProxy reports success only after tracking the proxy (and refuses when closed); (R6) replies are re-routed by the connection's own client id, never to the closing connection itself, and Close removes the client-id entry only if it still maps to this connection. NOT decided: exactly-once when a close races the drain on a follower whose leader is unreachable, leaks of queued requests, delivery after reconnect."
 	r.Assumptions = []string{"Go type checker and go/ssa are correct for /repo"}
 	c18R1(p, r)
 	c18R2(p, r)
 	c18R3(p, r)
 	c18R6(p, r)
+	c18R5(p, r)
+}
+
+// c18R5: a proxy adopted by a connection must be tracked by it, because Close
+// repoints exactly the tracked proxies to the default protocol; an adopted but
+// untracked proxy keeps pointing at the closed connection and its later
+// replies are lost. So AddProxy of a connection protocol returns success only
+// on a path that appended this proxy to the tracked list under the mutex (or
+// found this very pointer already in it), and refuses once closed.
+func c18R5(p *core.Prog, r *core.Report) {
+	const rule = "C18/R5"
+	r.Rule(rule, "AddProxy of a connection protocol: success only after the proxy was appended to the tracked list under the mutex (or is already in it by identity); refused when closed", 4)
+	for _, name := range []string{"server.(*BinaryServerProtocol).AddProxy", "server.(*TextServerProtocol).AddProxy"} {
+		fn := mustFunc(p, r, name)
+		if fn == nil {
+			continue
+		}
+		self, proxy := fn.Params[0].Name(), fn.Params[1].Name()
+		ex := core.NewExplorer(p, core.Hooks{
+			Track: func(x *core.X, a core.Atom) bool {
+				s := core.Plain(a.String())
+				return strings.HasSuffix(s, ".closed == true") || strings.HasSuffix(s, ".closed == false") || strings.HasSuffix(s, " == "+proxy) || strings.HasSuffix(s, " != "+proxy) || strings.HasPrefix(s, proxy+" == ") || strings.HasPrefix(s, proxy+" != ")
+			},
+			Instr: func(x *core.X) {
+				if !x.Top() {
+					return
+				}
+				if _, _, ok := trackLocks(x); ok {
+					return
+				}
+				if st, ok := x.Ins.(*ssa.Store); ok {
+					if k, ok := storeKey(st.Addr); ok && k.Field == "proxys" {
+						v := core.Plain(x.Canon(st.Val).S)
+						if strings.HasPrefix(v, "append("+self+".proxys") && strings.Contains(v, proxy) {
+							if held(x, "glock") {
+								x.Set("added", "1")
+							} else {
+								r.Violate(rule, name+": append", x.Pos(), "tracked list extended without the connection mutex", x.St.Trace)
+							}
+						}
+					}
+				}
+			},
+			Exit: func(x *core.X, rets []core.Expr) {
+				if len(rets) != 1 {
+					return
+				}
+				closed, same := false, false
+				for h := range x.St.Hist {
+					if strings.HasSuffix(h, ".closed == true") {
+						closed = true
+					}
+					if (strings.HasSuffix(h, " == "+proxy) || strings.HasPrefix(h, proxy+" == ")) && strings.Contains(h, "proxys") {
+						same = true
+					}
+				}
+				switch {
+				case closed:
+					key := name + ": closed"
+					if rets[0].S == "nil" || x.Get("added") == "1" {
+						r.Violate(rule, key, x.Pos(), "a closed connection accepts a proxy: nothing will ever repoint it, its replies are lost", x.St.Trace)
+					} else {
+						r.Hold(rule, key, x.Pos(), "refused")
+					}
+				case rets[0].S == "nil":
+					key := name + ": success"
+					if x.Get("added") == "1" || same {
+						r.Hold(rule, key, x.Pos(), "proxy is in the tracked list")
+					} else {
+						r.Violate(rule, key, x.Pos(), "AddProxy reports success without tracking the proxy: the caller repoints the proxy to this connection, Close will not reset it, and replies routed through it after the close are lost", x.St.Trace)
+					}
+				}
+			},
+		})
+		ex.Run(fn, nil)
+		if ex.Imprecise != "" {
+			r.Fail("C18/R5 %s: %s", name, ex.Imprecise)
+		}
+	}
 }
 
 func c18R1(p *core.Prog, r *core.Report) {
